@@ -76,10 +76,17 @@ class DesignPartitions():
 
         """
         source_factors = []
-        for derived_factor in self.get_crossed_noncomplex_derived_factors():
+        crossed = self.get_crossed_noncomplex_factors()
+        def add_sources(derived_factor):
             for source_factor in derived_factor.levels[0].window.factors:
+                if (isinstance(source_factor, DerivedFactor) and not source_factor.has_complex_window
+                    and source_factor not in crossed):
+                    # An uncrossed derived factor is determined by its own sources
+                    add_sources(source_factor)
                 if source_factor not in source_factors:
                     source_factors.append(source_factor)
+        for derived_factor in self.get_crossed_noncomplex_derived_factors():
+            add_sources(derived_factor)
         return source_factors
 
     def get_uncrossed_basic_factors(self):
